@@ -220,6 +220,29 @@ func init() {
 		}
 		fmt.Fprintf(&b, "(* kyaml/yaml/walk/walk.go: indexes of the walker's Sources *)\nDefinition gen_source_indexes : list (string * nat) := [%s].\n\n", strings.Join(parts, "; "))
 
+		// api/internal/utils/annotations.go: the build annotations ApplySmPatch reads on the patch
+		utilsDir := filepath.Join(repo, "api/internal/utils")
+		konfigConsts, err := constStrings(filepath.Join(repo, "api/konfig"))
+		if err != nil {
+			return "", err
+		}
+		utilsConsts, err := constStrings(utilsDir)
+		if err != nil {
+			return "", err
+		}
+		for _, kv := range [][2]string{{"BuildAnnotationAllowNameChange", "gen_allow_name_key"}, {"BuildAnnotationAllowKindChange", "gen_allow_kind_key"}} {
+			v, err := selectorConcat(utilsDir, kv[0], "konfig", konfigConsts)
+			if err != nil {
+				return "", err
+			}
+			fmt.Fprintf(&b, "(* api/internal/utils/annotations.go: %s *)\nDefinition %s : string := %s.\n\n", kv[0], kv[1], coqStr(v))
+		}
+		enabled, ok := utilsConsts["Enabled"]
+		if !ok {
+			return "", fmt.Errorf("const Enabled not found in %s", utilsDir)
+		}
+		fmt.Fprintf(&b, "(* api/internal/utils/annotations.go: Enabled *)\nDefinition gen_enabled : string := %s.\n\n", coqStr(enabled))
+
 		kinds := []struct{ kind, av string }{
 			{"Deployment", "apps/v1"}, {"StatefulSet", "apps/v1"}, {"DaemonSet", "apps/v1"}, {"ReplicaSet", "apps/v1"},
 			{"Job", "batch/v1"}, {"CronJob", "batch/v1"},
@@ -254,4 +277,58 @@ func init() {
 		}
 		return b.String(), nil
 	})
+}
+
+// selectorConcat evaluates a constant of the form  pkg.Name + "literal" (+ ...)  where pkg.Name is looked up
+// in the constants of the imported package.
+func selectorConcat(dir, name, pkg string, pkgConsts map[string]string) (string, error) {
+	_, files, err := parseDir(dir)
+	if err != nil {
+		return "", err
+	}
+	var eval func(e ast.Expr) (string, bool)
+	eval = func(e ast.Expr) (string, bool) {
+		switch x := e.(type) {
+		case *ast.BasicLit:
+			if x.Kind != token.STRING {
+				return "", false
+			}
+			return constant.StringVal(constant.MakeFromLiteral(x.Value, token.STRING, 0)), true
+		case *ast.BinaryExpr:
+			if x.Op != token.ADD {
+				return "", false
+			}
+			a, ok1 := eval(x.X)
+			b, ok2 := eval(x.Y)
+			return a + b, ok1 && ok2
+		case *ast.ParenExpr:
+			return eval(x.X)
+		case *ast.SelectorExpr:
+			if id, ok := x.X.(*ast.Ident); ok && id.Name == pkg {
+				v, ok := pkgConsts[x.Sel.Name]
+				return v, ok
+			}
+		}
+		return "", false
+	}
+	for _, f := range files {
+		for _, d := range f.Decls {
+			gd, ok := d.(*ast.GenDecl)
+			if !ok || gd.Tok != token.CONST {
+				continue
+			}
+			for _, sp := range gd.Specs {
+				vs := sp.(*ast.ValueSpec)
+				for i, n := range vs.Names {
+					if n.Name == name && i < len(vs.Values) {
+						if v, ok := eval(vs.Values[i]); ok {
+							return v, nil
+						}
+						return "", fmt.Errorf("cannot evaluate const %s", name)
+					}
+				}
+			}
+		}
+	}
+	return "", fmt.Errorf("const %s not found in %s", name, dir)
 }
